@@ -444,8 +444,9 @@ fn decode_mutations<E>(
         // Get the solution that these outputs came from.
         let s = &mut set.solutions[output.solution_index as usize];
 
-        // Set to check for duplicate mutations.
-        let mut mut_set = HashSet::new();
+        // Set to check for duplicate mutations, seeded with the keys the solution already declares
+        // so that a computed mutation can't propose a second value for a declared key.
+        let mut mut_set: HashSet<_> = s.state_mutations.iter().map(|m| m.key.clone()).collect();
 
         // For each memory output decode the mutations and apply them.
         for data in output.data {
